@@ -99,12 +99,19 @@ def _apy(rate) -> Fraction:
         return Fraction((1 + Decimal(rate) / SECONDS) ** SECONDS - 1)
 
 
-READS_ALL = ["supplies", "borrows", "supplies_value", "borrows_value", "collateral_value", "health_factor", "balance", "all", "max_withdraw", "max_borrow"]
-READS_QUICK = ["supplies", "health_factor", "all", "max_withdraw"]
+READS_ALL = ["single", "supplies", "borrows", "supplies_value", "borrows_value", "collateral_value", "health_factor", "balance", "all", "max_withdraw", "max_borrow"]
+READS_QUICK = ["single", "supplies", "health_factor", "all", "max_withdraw"]
 READS = list(READS_QUICK)
 
 
 def do_read(m, which):
+    if which == "single":  # one position looked up directly (no list built first): the debt that was opened last, the supply that was opened first
+        out = []
+        if m._borrows:
+            out.append(m.get_borrow(list(m._borrows)[-1]))
+        if m._supplies:
+            out.append(m.get_supply(list(m._supplies)[0]))
+        return out
     if which == "max_withdraw":  # read-only helper queries go through the cached views too and must leave them as they are
         return [m.get_max_withdraw_amount(t) for t in list(m._supplies)]
     if which == "max_borrow":
@@ -228,20 +235,21 @@ class Oracle:
 
     def guarded_check(self, ctx, hist, op, phase=None):
         keep = ctx.snapshot()
-        try:
-            self.check_views(ctx, hist, op, phase)
-        except Exception as e:  # noqa: BLE001  a view that cannot even be evaluated / compared is a wrong view
-            self.part.violation(f"C13|view-unusable|{type(e).__name__}", "a derived view raised or returned something that cannot be compared with the recomputation",
-                                {"seed": getattr(self, "seed_name", "empty"), "history": list(hist)}, {"error": repr(e)[:200]})
-        finally:
-            ctx.restore(keep)
+        for reverse in (False, True):
+            try:
+                self.check_views(ctx, hist, op, phase, reverse)
+            except Exception as e:  # noqa: BLE001  a view that cannot even be evaluated / compared is a wrong view
+                self.part.violation(f"C13|view-unusable|{type(e).__name__}", "a derived view raised or returned something that cannot be compared with the recomputation",
+                                    {"seed": getattr(self, "seed_name", "empty"), "history": list(hist)}, {"error": repr(e)[:200]})
+            finally:
+                ctx.restore(keep)
 
     def after_update(self, ctx):
         class _K:
             kind = "update"
         self.guarded_check(ctx, list(getattr(ctx, "hist_ref", [])) + ["w.advance"], _K, "after-update(after_bar hook)")
 
-    def check_views(self, ctx, hist, op, phase=None):
+    def check_views(self, ctx, hist, op, phase=None, reverse=False):
         part = self.part
         ad = ctx.adapters[0]
         m = ad.market
@@ -256,6 +264,13 @@ class Oracle:
             part.violation(f"C13|{view}|{last}", f"derived view {view} differs from a from-scratch recomputation ({last})", case, detail)
 
         part.count("view_comparisons")
+        sections = [self._sec_lists, self._sec_dicts, self._sec_totals, self._sec_risk, self._sec_apy, self._sec_balance]
+        # reading one view may fill (or repair) the memo another view is served from: the views are read in the given order and, in a second pass
+        # from the same state, in the opposite order
+        for sec in (sections if not reverse else sections[::-1]):
+            sec(ctx, m, ad, sup, bor, risk, ts, bad)
+
+    def _sec_lists(self, ctx, m, ad, sup, bor, risk, ts, bad):
         # listed supplies / borrows
         try:
             sv = m.supplies
@@ -278,22 +293,30 @@ class Oracle:
                 amt, val = bor[k.name]
                 if not close(b.amount, amt) or not close(b.value, val):
                     bad("borrows.amount", {"token": k.name, "view": float(b.amount), "raw": float(amt)})
-        # value dicts and totals
+
+    def _sec_dicts(self, ctx, m, ad, sup, bor, risk, ts, bad):
+        # value dicts
         for name, view, ref in (("supplies_value", m.supplies_value, {s: v[1] for s, v in sup.items()}),
                                 ("borrows_value", m.borrows_value, {s: v[1] for s, v in bor.items()}),
                                 ("collateral_value", m.collateral_value, {s: v[1] for s, v in sup.items() if v[2]})):
             got = {k.name: v for k, v in view.items()}
             if set(got) != set(ref) or any(not close(got[k], ref[k]) for k in ref):
                 bad(name, {"view": {k: float(v) for k, v in got.items()}, "raw": {k: float(v) for k, v in ref.items()}})
+
+    def _sec_totals(self, ctx, m, ad, sup, bor, risk, ts, bad):
         if not close(m.total_supply_value, risk["supply"]) or not close(m.total_borrows_value, risk["debt"]) \
                 or not close(m.total_collateral_value, risk["collateral"]):
             bad("totals", {"view": [float(m.total_supply_value), float(m.total_borrows_value), float(m.total_collateral_value)],
                            "raw": [float(risk["supply"]), float(risk["debt"]), float(risk["collateral"])]})
+
+    def _sec_risk(self, ctx, m, ad, sup, bor, risk, ts, bad):
         # risk figures
         for name, got, want in (("health_factor", m.health_factor, risk["hf"]), ("max_ltv", m.max_ltv, risk["max_ltv"]),
                                 ("liquidation_threshold", m.liquidation_threshold, risk["lt"]), ("ltv", m.ltv, risk["ltv"])):
             if not close(got, want):
                 bad(name, {"view": str(got), "raw": None if want is None else float(want)})
+
+    def _sec_apy(self, ctx, m, ad, sup, bor, risk, ts, bad):
         # apys
         s_apy = sum((v[1] * apy(ad.frames[s].loc[ts]["liquidity_rate"]) for s, v in sup.items()), Fraction(0))
         b_apy = sum((v[1] * apy(ad.frames[s].loc[ts]["variable_borrow_rate"]) for s, v in bor.items()), Fraction(0))
@@ -301,6 +324,8 @@ class Oracle:
         want_b = b_apy / risk["debt"] if risk["debt"] else Fraction(0)
         if not close(m.supply_apy, want_s, Fraction(1, 10**20)) or not close(m.borrow_apy, want_b, Fraction(1, 10**20)):
             bad("apy", {"view": [float(m.supply_apy), float(m.borrow_apy)], "raw": [float(want_s), float(want_b)]})
+
+    def _sec_balance(self, ctx, m, ad, sup, bor, risk, ts, bad):
         # market balance (quantised to 1e-4 by the API)
         mb = m.get_market_balance()
         # net value is the difference of two figures each quantised to 1e-4, so it may be off by up to 1e-4 in total; the components by half of that
